@@ -137,7 +137,11 @@ def gen_scenario(rng):
         steps.append(("rpc", payload()))
     nasync = rng.choice([0, 1, 1, 2, 3, 5, 8, 20]) if rng.random() < 0.9 else 40
     for _ in range(nasync):
-        steps.append((rng.choice(["pub", "pub", "pubi", "send"]), payload()))
+        k = rng.choice(["pub", "pub", "pubi", "send", "ping"])
+        # a server ping is an empty Reply: `{}` in JSON, a zero-length record in the Protobuf stream
+        steps.append((k, b"" if k == "ping" else payload()))
+    if rng.random() < 0.25:
+        steps.insert(rng.randint(0, len(steps)), ("ping", b""))
     dc = rng.choice([3500, 3501, 3503, 3001, 3005, 4000])
     dr = rng.choice(REASONS)
     return fmt_scn(t, m, dc, dr.encode("utf-8"), steps)
@@ -305,6 +309,7 @@ def evaluate(ctx, binary, ops, record=True):
                     ctx.count("json-frames-with-raw-CR:" + t, cr)
             else:
                 ctx.count("proto-frames-with-CR-or-LF", sum(1 for m in msgs if b"\n" in m or b"\r" in m))
+                ctx.count("proto-frames-empty", sum(1 for m in msgs if not m))
         want = expected_decoding(t, msgs)
         pyd = py_decode(t, body)
         if status != 200:
